@@ -69,6 +69,24 @@ MUT += [
 ]
 
 
+MUT += [
+    ("M60", "penguin/src/server/service.rs", "            || !header_matches!(sec_websocket_protocol, WANTED_PROTOCOL)\n", "", ["C14"], ["C14"]),
+    ("M61", "penguin/src/server/service.rs", "        if self.ws_psk.is_some() && x_penguin_psk != self.ws_psk {", "        if self.ws_psk.is_some() && x_penguin_psk.is_some() && x_penguin_psk != self.ws_psk {", ["C14"], ["C14"]),
+    ("M62", "penguin/src/server/service.rs", "        if req.method() != Method::GET {\n            warn!(\"Invalid WebSocket request: not a GET request\");\n            return self.backend_or_404_handler(req).await;\n        }\n", "", ["C14"], ["C14"]),
+    ("M63", "penguin/src/server/service.rs", "            .header(header::SEC_WEBSOCKET_ACCEPT, sec_websocket_accept)", "            .header(header::SEC_WEBSOCKET_ACCEPT, sec_websocket_key)", ["C14"], ["C14"]),
+    ("M64", "penguin/src/server/service.rs", "        if !header_matches!(connection, UPGRADE)\n            || !header_matches!(upgrade, WEBSOCKET)", "        if !header_matches!(connection, UPGRADE)\n            && !header_matches!(upgrade, WEBSOCKET)", ["C14"], ["C14"]),
+    ("M65", "penguin-socks/src/v4.rs", "ip != 0 && ip >> 8 == 0", "ip != 0 && ip >> 16 == 0", ["C18"], ["C18"]),
+]
+
+
+MUT += [
+    ("M70", "penguin/src/tls/rustls.rs", "        (false, Some((cert_chain, key_der))) => config\n            .with_root_certificates(roots)\n            .with_client_auth_cert(cert_chain, key_der)?,", "        (false, Some((cert_chain, key_der))) => config\n            .dangerous()\n            .with_custom_certificate_verifier(Arc::new(EmptyVerifier(get_crypto_provider())))\n            .with_client_auth_cert(cert_chain, key_der)?,", ["C17"], ["C17"]),
+    ("M71", "penguin/src/tls/rustls.rs", "    let mut config = match (tls_skip_verify, client_certificate) {", "    let mut config = match (!tls_skip_verify, client_certificate) {", ["C17"], ["C17"]),
+    ("M72", "penguin/src/tls/rustls.rs", "        let store = generate_rustls_rootcertstore(Some(client_ca_path)).await?;", "        let store = generate_rustls_rootcertstore(None).await?;", ["C17"], ["C17"]),
+    ("M73", "penguin/src/tls/rustls.rs", "        let verifier = WebPkiClientVerifier::builder(Arc::new(store)).build()?;", "        let verifier = WebPkiClientVerifier::builder(Arc::new(store)).allow_unauthenticated().build()?;", ["C17"], ["C17"]),
+]
+
+
 # behaviour-preserving refactors: every listed check must stay silent
 EQUIV = [
     ("E01", "penguin-mux/src/stream.rs", "if new >= self.rwnd_threshold {", "if !(new < self.rwnd_threshold) {", ["C03"]),
